@@ -31,6 +31,7 @@ type LoopSpec struct {
 	Invariants []Clause
 	Decreases  *Clause
 	Steps      []Clause // hold at the end of every iteration (loop variables = values for the next iteration)
+	Afters     []Clause // hold when the loop terminates normally (edge from its header to the code after it)
 	Exits      []Clause // hold whenever the loop is left by break/return (not by its normal termination)
 }
 
@@ -116,7 +117,7 @@ func NewContracts() *Contracts {
 	return &Contracts{Units: map[string]*Unit{}, Specs: map[string]*SpecFunc{}, Ghosts: map[string]*GhostVar{}, GhostFields: map[string]map[string]*GhostField{}}
 }
 
-var clauseKeywords = map[string]bool{"preserves": true, "step": true, "exits": true, "at": true, "memoize": true, "pins": true, "visits": true, "requires": true, "ensures": true, "modifies": true, "invariant": true,
+var clauseKeywords = map[string]bool{"after": true, "preserves": true, "step": true, "exits": true, "at": true, "memoize": true, "pins": true, "visits": true, "requires": true, "ensures": true, "modifies": true, "invariant": true,
 	"decreases": true, "loop": true, "func": true, "spec": true, "define": true, "axiom": true, "ghost": true,
 	"opts": true, "pure": true, "end": true, "trusted": true}
 
@@ -328,6 +329,15 @@ func (c *Contracts) ParseFile(path, pkgPath string) error {
 			}
 			cur.Loops[ord] = ls
 			curLoop = ls
+		case "after":
+			if curLoop == nil {
+				return fmt.Errorf("%s:%d: after outside loop", path, r.line)
+			}
+			cl, err := mkClause(r)
+			if err != nil {
+				return err
+			}
+			curLoop.Afters = append(curLoop.Afters, cl)
 		case "step", "exits":
 			if curLoop == nil {
 				return fmt.Errorf("%s:%d: %s outside loop", path, r.line, r.kw)
